@@ -32,6 +32,14 @@ def parseMode (s : String) : Option Mode :=
 
 def markBase : Nat := 300000
 def leakBase : Nat := 400000
+def frameBase : Nat := 150000
+
+/-- per-frame ghost: a zero-cost native action (no gas, no log, works in a static context) put at the head of every
+callee program; its journal entry is undone with the frame, so it is in the committed native store iff the frame and
+all its enclosing frames returned normally -/
+def frameGhost (id : Nat) : Prog NS :=
+  .pre { callc := 0, cap := 0, stip := 0, kind := .call, xfer := none, funded := fun _ => true, swallow := true, pOk := 0, pFail := 0 }
+    0 RunShape.tidy (fun n => n) [] (fun _ _ n => (.ok, (frameBase + id) :: n, []))
 
 /-- "<n>" or "<n>+<r>": n logs, one more when marker r is in the native store; a successful call sets marker r -/
 def parseLogs (s : String) : Option (Nat × Nat) :=
@@ -78,7 +86,7 @@ partial def parseList : List String → Option (List (Prog NS) × List Nat × Li
       match hdrOf id [a, b, c, d, e, f, g, h, i], parseList rest with
       | some hd, some (body, ms1, r1) =>
         match parseList r1 with
-        | some (ns, ms2, r2) => some (.call hd body :: ns, ms1 ++ ms2, r2)
+        | some (ns, ms2, r2) => some (.call hd (frameGhost id :: body) :: ns, ms1 ++ ms2, r2)
         | none => none
       | _, _ => none
     | none => none
@@ -134,14 +142,15 @@ def step (st : Unit) (line : String) : Unit × String :=
     | some gl, some intr, some (prog, markers, []) =>
       if gl < intr then (st, "rejected") else
       let v0 : View NS := { slots := fun _ => 0, native := [], logs := [] }
-      let r := runTx (toks.length + 10) (gl - intr) prog v0
+      let r := runTx (2 * toks.length + 10) (gl - intr) prog v0
       let status := match r.1 with | .ok => "ok" | .revert => "revert" | .fail => "fail" | .abort => "abort"
       let ms := markers.filter (fun k => r.2.1.slots k != 0)
       let kept := r.2.1.native.filter (· < 100000)
       let used := (gl - intr) - r.2.2
       -- anything committed that is not the effect of a kept call: a write made outside a native action, a half-written store
       let leak := r.2.1.native.any (fun x => x == 999999 || x ≥ leakBase)
-      (st, s!"{status} gas={used} markers={showNats ms} kept={showNats kept} logs={r.2.1.logs.length} ref={if leak then "diff" else "same"}")
+      let frames := (r.2.1.native.filter (fun x => frameBase ≤ x && x < resBase)).map (· - frameBase)
+      (st, s!"{status} gas={used} markers={showNats ms} kept={showNats kept} frames={showNats frames} logs={r.2.1.logs.length} ref={if leak then "diff" else "same"}")
     | _, _, _ => (st, "bad-op")
   | "direct" :: gl :: intr :: toks =>
     -- the transaction's `to` is the precompile: one precompile node, no caller frame
@@ -149,13 +158,14 @@ def step (st : Unit) (line : String) : Unit × String :=
     | some gl, some intr, some ([.pre hd req sh out inner act], markers, []) =>
       if gl < intr then (st, "rejected") else
       let v0 : View NS := { slots := fun _ => 0, native := [], logs := [] }
-      let r := runTxPre (toks.length + 10) (gl - intr) hd.xfer req sh out inner act v0
+      let r := runTxPre (2 * toks.length + 10) (gl - intr) hd.xfer req sh out inner act v0
       let status := match r.1 with | .ok => "ok" | .revert => "revert" | .fail => "fail" | .abort => "abort"
       let ms := markers.filter (fun k => r.2.1.slots k != 0)
       let kept := r.2.1.native.filter (· < 100000)
       let used := (gl - intr) - r.2.2
       let leak := r.2.1.native.any (fun x => x == 999999 || x ≥ leakBase)
-      (st, s!"{status} gas={used} markers={showNats ms} kept={showNats kept} logs={r.2.1.logs.length} ref={if leak then "diff" else "same"}")
+      let frames := (r.2.1.native.filter (fun x => frameBase ≤ x && x < resBase)).map (· - frameBase)
+      (st, s!"{status} gas={used} markers={showNats ms} kept={showNats kept} frames={showNats frames} logs={r.2.1.logs.length} ref={if leak then "diff" else "same"}")
     | _, _, _ => (st, "bad-op")
   | _ => (st, "bad-op")
 
